@@ -1009,9 +1009,20 @@ func (x *Exec) funcValue(o *types.Func, n ast.Node) Val {
 	return Val{T: IntLit(id), Ty: x.w.goTy(o.Type(), x.model.BV)}
 }
 
+// methodValue: recv.M used as a value. For a receiver that is an opaque
+// handle (an interface value or a pointer) the result is an opaque function
+// handle determined by the receiver handle and the method name; what calling
+// it does is covered by A8 like every function-typed value. Receivers that
+// are copied into the closure (struct values) stay outside the subset.
 func (x *Exec) methodValue(e *ast.SelectorExpr, sel *types.Selection, st *State) Val {
-	x.unsupported(e, "method values are not supported")
-	panic("unreachable")
+	recv := x.expr(e.X, st)
+	if recv.T == nil || recv.T.Sort != SInt {
+		x.unsupported(e, "method values are supported on interface and pointer receivers only")
+	}
+	name := "methodval_" + sanitize(sel.Obj().Name())
+	x.sym.Func(name, []Sort{SInt}, SInt)
+	x.noteTrusted("A8: the method value " + exprText(e) + " is an opaque function value determined by its receiver handle and the method name")
+	return Val{T: mk(name, SInt, recv.T), Ty: x.w.goTy(sel.Type(), x.model.BV)}
 }
 
 // typeAssert: x.(T) for a concrete type T with a boxKey. The dynamic type
